@@ -30,6 +30,7 @@ ASSUMPTIONS = [
     'Python ints are mathematical integers (z3 Int); data contents are an uninterpreted function D(row)',
     'mtscomp.Reader replaced by a contract stub (n_batches = ceil(n_chunks / batch_size)); thread pool and '
     'decompression are no-ops',
+    'forms added after seeding rounds: n_samples as a typed unsigned NumPy scalar (uint8/uint32/uint64) with every integer of the call representable in that type',
 ]
 STUBS = ['mtscomp.Reader (contract stub)', 'tqdm (no-op)', 'Path.stat/np.memmap (virtual file system)']
 OUTSIDE = ['more chunks/excerpts/parts than the unwinding bounds', 'mtscomp decoder and thread pool']
